@@ -252,5 +252,21 @@ def parallel(fn, arglist, procs=None):
     if len(arglist) <= 1:
         return [fn(*a) for a in arglist]
     ctx = mp.get_context("fork")
-    with ctx.Pool(min(procs or 8, len(arglist))) as pool:
-        return pool.map(_call, [(fn, a) for a in arglist], chunksize=1)
+    # the workers must not inherit run.py's SIGTERM handler (raise SystemExit): Pool.terminate() SIGTERMs idle workers
+    # while holding the queue lock, and a worker that runs a Python handler on a non-main thread never exits (observed
+    # deadlock in the pool teardown).  Results are complete after map(): close + join lets the workers exit normally.
+    pool = ctx.Pool(min(procs or 8, len(arglist)), initializer=_pool_worker_init)
+    try:
+        res = pool.map(_call, [(fn, a) for a in arglist], chunksize=1)
+        pool.close()
+        pool.join()
+        return res
+    except BaseException:
+        pool.terminate()
+        raise
+
+
+def _pool_worker_init():
+    import signal
+
+    signal.signal(signal.SIGTERM, signal.SIG_DFL)
